@@ -298,6 +298,13 @@ def mon_C14(case, lines):
         for x in cons:
             if x.startswith("track") and "altered:" in x and not case.get("readback"):   # (read-back sessions track values of their own)
                 v.append("C14: callback %d (%s): a tracked value came back altered in the returned request: %s" % (i, cb["kind"], x))
+        if not case.get("readback") and not case.get("host_plugin"):
+            # every assignment to a tracked variable made during the callback is one returned consequence, in the order made
+            wrote = [str(k) for k, _ in cb.get("tracks", [])]
+            came = [x.split()[1] for x in cons if x.startswith("track") and len(x.split()) > 1]
+            if wrote != came:
+                v.append("C14: callback %d (%s at %r): the protocol assigned tracked variables %s in this order, the interop wrapper returned "
+                         "assignments to %s" % (i, cb["kind"], cb["t"], wrote, came))
         fwd = [x for x in cons if not x.startswith("track")]
         want = [x for x in py[i] if not x.startswith("cancel")]
         if fwd != want:
